@@ -338,3 +338,19 @@ CHECKS["C19"] = {
     ],
     "assumptions": ["client groups are selected through UDP source addresses and an ip_marker file", "a burst hit that gets no response is re-sent once on its own before it counts (UDP loss on loopback)"],
 }
+
+CHECKS["C14"] = {
+    "title": "Upstream exchanges end by their deadline and survive stale connections",
+    "level": "fault_enumeration",
+    "level_text": "Scripted faulty servers on real loopback sockets for every transport (udp, tcp, tcp+pipeline, tls, tls+pipeline, https, h3, quic): generated fault placements on fresh or pooled connections (silence, half prefix, half body then stall/FIN, garbage, wrong ID, FIN, RST, HTTP 500, closed port, handshake that never completes) with 150-600 ms deadlines must return by deadline + 2 s; pooled connections killed by the server while idle must be survived with a bounded number of dials; a server that kills every connection must yield an error with bounded dials; all waiters of a killed multiplexed connection must return within 1.5 s. Enumeration of fault classes x placements; timing is the OS's.",
+    "level_note": "The 2 s slack is far below the 5-6 s I/O deadlines in the code, so a path that forgot the context is unmistakable.",
+    "technique": "property-based fault injection (rapid) against scripted fake servers; bounded-time and bounded-dial oracles",
+    "parts": [
+        {"engine": "P", "pkg": "internal/upstream", "tests": [
+            {"run": "TestVfC14Faults", "quick": 320, "thorough": 12000, "shards_quick": 16, "shards_thorough": 16, "timeout_thorough": 3400},
+            {"run": "TestVfC14Stale", "quick": 160, "thorough": 6000, "shards_quick": 8, "shards_thorough": 16},
+            {"run": "TestVfC14MassWake", "quick": 64, "thorough": 2400, "shards_quick": 4, "shards_thorough": 8},
+        ]},
+    ],
+    "assumptions": ["fake servers listen on 127.0.0.1 with certificates from the harness CA"],
+}
